@@ -190,6 +190,8 @@ def stale(data_dir, data_file, run, basis, n, rank):
     import numpy as np
     import esr.fitting.test_all as test_all
     lik = make_lik(os.path.abspath(data_dir), data_file, run, basis)
+    for dname in (lik.base_out_dir, lik.out_dir, lik.temp_dir):      # rank 0 of that job created them before its barrier
+        os.makedirs(dname, exist_ok=True)
 
     class Killed(Exception):
         pass
